@@ -386,6 +386,15 @@ func (w *world) flushPC() {
 	}
 }
 
+func (w *world) resyncSolver() {
+	w.sv.close()
+	w.sv.failed, w.sv.lastErr, w.sv.sawError = false, "", false
+	if err := w.sv.start(); err != nil {
+		panic(unsupported("cannot restart the solver: " + err.Error()))
+	}
+	w.flushed = 0
+}
+
 // feasible asks whether pc ∧ t is satisfiable.
 func (w *world) feasible(t *Term) satResult {
 	if t != nil {
@@ -410,6 +419,12 @@ func (w *world) feasible(t *Term) satResult {
 	w.solverGuard()
 	if r == rSat {
 		w.sv.endModel(t != nil)
+	}
+	if r == rUnknown {
+		// a query z3 gave up on (timeout): do not keep working with a process
+		// whose search was interrupted - start a fresh one and hand it the path
+		// condition again at the next query
+		w.resyncSolver()
 	}
 	if d := time.Since(t0); d > 2*time.Second && os.Getenv("SYMGO_SLOW") != "" {
 		fmt.Fprintf(os.Stderr, "slow query %.1fs result=%v size=%d pc=%d: %.300s\n", d.Seconds(), r, t.size, len(w.pc), w.sv.expr(t))
@@ -779,6 +794,8 @@ func (w *world) reportViolation(kind, id, msg string, extra *Term) {
 	r := w.sv.check(extra)
 	w.solverGuard()
 	if r == rUnknown {
+		w.resyncSolver()
+		w.flushPC()
 		w.sv.setTimeout(5 * w.sv.timeout)
 		r = w.sv.check(extra)
 		w.sv.setTimeout(w.sv.timeout)
